@@ -2,6 +2,7 @@ package parser
 
 import (
 	"fmt"
+	"strconv"
 	"strings"
 	"unicode"
 )
@@ -461,6 +462,42 @@ func (l *ExpandedLexer) readString() Token {
 				builder.WriteByte('\'')
 			case '\\':
 				builder.WriteByte('\\')
+			// The remaining escapes of the compact lexer. Expanding a file does
+			// not touch its string literals, so both lexers must read them alike:
+			// "\x41" is "A" in the compact syntax and was "x41" here.
+			case '0':
+				builder.WriteByte(0)
+			case 'a':
+				builder.WriteByte('\a')
+			case 'b':
+				builder.WriteByte('\b')
+			case 'f':
+				builder.WriteByte('\f')
+			case 'v':
+				builder.WriteByte('\v')
+			case 'x', 'u':
+				digits := 2
+				if l.ch == 'u' {
+					digits = 4
+				}
+				kind := l.ch
+				var hex strings.Builder
+				for range digits {
+					if !isHexDigit(l.peekChar()) {
+						break
+					}
+					l.readChar()
+					hex.WriteByte(l.ch)
+				}
+				val, err := strconv.ParseUint(hex.String(), 16, 32)
+				if hex.Len() != digits || err != nil {
+					return Token{Type: ILLEGAL, Literal: fmt.Sprintf("invalid \\%c escape: expected %d hex digits", kind, digits), Line: startLine, Column: startColumn}
+				}
+				if kind == 'x' {
+					builder.WriteByte(byte(val))
+				} else {
+					builder.WriteRune(rune(val))
+				}
 			default:
 				builder.WriteByte(l.ch)
 			}
